@@ -41,7 +41,7 @@ SR = "src/primitives/rectangle/styled.rs"
 CASES = [
     ("outside_stroke_width: Center takes the larger half", "mutation", PS,
      "StrokeAlignment::Center => self.stroke_width / 2,", "StrokeAlignment::Center => (self.stroke_width + 1) / 2,",
-     ["outside_stroke_width_src_eq_model", "src_stroke_width_split"]),
+     ["outside_stroke_width_src_eq_model"]),
     ("inside_stroke_width: Center without the `+ 1`", "mutation", PS,
      "StrokeAlignment::Center => self.stroke_width.saturating_add(1) / 2,", "StrokeAlignment::Center => self.stroke_width / 2,",
      ["inside_stroke_width_src_eq_model"]),
@@ -66,7 +66,7 @@ CASES = [
      "let offset = if self.stroke_style == StrokeStyle::Solid {", "let offset = if self.stroke_style != StrokeStyle::Solid {",
      ["fill_area_src_eq_model", "fill_area_dotted_src"]),
     ("const_default: alignment Inside", "mutation", PS,
-     "stroke_alignment: StrokeAlignment::Center,", "stroke_alignment: StrokeAlignment::Inside,",
+     "stroke_width: 0,\n            stroke_alignment: StrokeAlignment::Center,", "stroke_width: 0,\n            stroke_alignment: StrokeAlignment::Inside,",
      ["const_default_src_eq_model", "with_stroke_src_eq_model"]),
     ("builder: reset_fill_color resets the stroke colour", "mutation", PS,
      "self.style.fill_color = None;", "self.style.stroke_color = None;",
@@ -92,7 +92,7 @@ CASES = [
      ["draw_styled_src_eq_model"]),
     ("styled_bounding_box: grown by the whole width", "mutation", SR,
      "let offset = style.outside_stroke_width().saturating_as();", "let offset = style.stroke_width.saturating_as();",
-     ["styled_bounding_box_src_eq_model", "src_styled_bounding_box_eq_stroke_area"]),
+     ["styled_bounding_box_src_eq_model"]),
     ("StyledPixelsIterator::new: transparency test negated", "mutation", SR,
      "let iter = if !style.is_transparent() {", "let iter = if style.is_transparent() {",
      ["StyledPixelsIterator_new_src_eq_model"]),
